@@ -43,7 +43,7 @@ def main():
     repo = os.environ.get("VERIF_REPO", "/repo")
     sys.dont_write_bytecode = True
     sys.path.insert(0, here)
-    sys.path.append(os.path.join(here, ".deps"))
+    sys.path.append(os.environ.get("VERIF_DEPS") or os.path.join(here, ".deps"))
     sys.path.insert(0, repo)
     import atheris
     with atheris.instrument_imports(include=["pycoin"]):
